@@ -85,6 +85,10 @@ ASSUMPTIONS = ["paths are syntactically absolute; two path strings with the same
                "DBFS is exercised over the in-process fake of the dbutils file-system API (harness/fakedbutils.py)"]
 
 SEGS = ["a", "b", "ab", "a b", "é", "a.b", "c", "x.tmp", "a.1.x.tmp", "k.meta", ".a", ".staging", "..b", "a."]
+# long names that differ only at their end (generated report names with a date or a counter): still below what a file name,
+# with the suffix of the store's temporary links, may take
+LONG = "monthly_report_" + "x" * 182
+SEGS += [LONG + "_2023_01", LONG + "_2023_02", LONG]
 BAD = [".", ".."]
 KEYS = ["k%d" % i for i in range(6)]
 
